@@ -14,6 +14,7 @@ VERUS_UNITS = {
     'decimal-ast': dict(unit='decimal-ast', rlimit=30, multiple_errors=40),
     'f64-ast': dict(unit='f64-ast', rlimit=30),
     'number-ast': dict(unit='number-ast', rlimit=30),
+    'i64number-agree': dict(unit='i64number-agree', rlimit=30),
     'i64-tok': dict(unit='i64-tok', rlimit=30), 'f64-tok': dict(unit='f64-tok', rlimit=30), 'number-tok': dict(unit='number-tok', rlimit=30),
     'decimal-tok': dict(unit='decimal-tok', rlimit=30), 'complex-tok': dict(unit='complex-tok', rlimit=30),
     'i64-glue': dict(unit='i64-glue'), 'f64-glue': dict(unit='f64-glue'), 'number-glue': dict(unit='number-glue'), 'decimal-glue': dict(unit='decimal-glue'), 'complex-glue': dict(unit='complex-glue'),
@@ -113,11 +114,13 @@ PLAN = {
                            'agreement with eval_f64 on real operands']),
     'C09': dict(verus=['number-ast', 'number-tok', 'number-glue'], kani=['number-ast', 'number-l4'], level='proof', assumptions=F64_ASSUME + KANI_ASSUME + TOK_ASSUME,
                 unclaimed=['bit-level meaning of the IEEE primitives (A-ieee in the Verus unit: each is an uninterpreted total function; Kani proves + - * unary minus abs and the rounding functions bit-exact, / and % on a bounded domain)']),
-    'C15': dict(verus=['i64-ast', 'f64-ast', 'number-ast'] + PARSERS, kani=['i64-ast', 'number-ast', 'f64-ast', 'number-l4'], tables_agree=True, level='proof',
+    'C15': dict(verus=['i64-ast', 'f64-ast', 'number-ast', 'i64number-agree'] + PARSERS, kani=['i64-ast', 'number-ast', 'f64-ast', 'number-l4'], tables_agree=True, level='proof',
                 assumptions=AST_ASSUME + F64_ASSUME + KANI_ASSUME + PARSER_ASSUME + [
                     'agreement is obtained as a corollary, not as one relational theorem: (1) eval_i64 returns Ok(v) only for the exact integer v (Verus, all trees) and eval_number returns Integer(exact) on Integer operands whenever it fits (Kani, per constructor), '
                     '(2) every Float / mixed arm of eval_number has the numeric value of the IEEE operation that the same arm of eval_f64 applies (Kani, per constructor, bit-exact), '
-                    '(3) all five parsers refine spec parsers generated from tables that are identical on shared entries; the induction over the expression tree that combines (1)-(3) is on paper'],
+                    '(3) all five parsers refine spec parsers generated from tables that are identical on shared entries. For the first clause (eval_i64 vs eval_number) the induction over the expression tree that combines the two per-evaluator theorems '
+                    'is machine-checked: unit i64number-agree proves, over the two specification vocabularies the evaluators are verified against, that on corresponding trees of the common integer sub-language (exact divisions only) a value v of the '
+                    'eval_i64 specification implies Integer(v) of the eval_number specification; for the float clauses the combination is on paper'],
                 unclaimed=['eval_complex vs eval_f64 and eval_decimal vs eval_f64 within 1e-9 (numerical: no contract here can express it)']),
     'C17': dict(verus=PARSERS, features_sweep=True, level='proof',
                 assumptions=PARSER_ASSUME + ['cargo feature resolution; the all-features test suite is the baseline, the crate\'s unit tests are not re-run per subset',
